@@ -114,7 +114,7 @@ theorem emitRest_print : ∀ (rest : Rest) (prim : List RTok) (pty : Ty) (acc : 
     obtain ⟨s, hs⟩ := Option.isSome_iff_exists.mp hc
     have ih := guard_print (isRegrouped e op.tok) (emit_print e he)
     simp only [emitRest, cppRestL]
-    apply emitRest_print rest _ ty _ hr
+    apply emitRest_print rest _ _ _ hr
     rw [unspaced_renderBinary op dict pty ty prim _ s hs hf]
     simp only [List.map_append, List.map_cons, hp, ih, print, toPrec_sym_of_cpp hs]
 end
@@ -377,7 +377,7 @@ theorem good_emitRest : ∀ (rest : Rest) (lv : Nat) (pty : Ty) (prim : List RTo
     obtain ⟨s, hs⟩ := Option.isSome_iff_exists.mp hcpp
     have ih := good_emitRaw e hce hwe
     simp only [emitRest]
-    apply good_emitRest rest lv ty _ hcr hwr
+    apply good_emitRest rest lv _ _ hcr hwr
     rw [renderBinary_raw op dict pty ty prim _ s hs hf]
     exact good_binary g (good_guardIf ih _) s
 end
@@ -470,7 +470,7 @@ theorem lastOp_facts : ∀ (rest : Rest) (lv : Nat) (pty : Ty) (o : BOp), coreRe
     | none => rw [hlo] at hl; cases hl; exact ⟨hc.1.1.1, hw.1.1.1.1, List.mem_cons_self⟩
     | some o' =>
       rw [hlo] at hl; cases hl
-      have := lastOp_facts rest lv t o hc.2 hw.2 hlo
+      have := lastOp_facts rest lv _ o hc.2 hw.2 hlo
       exact ⟨this.1, this.2.1, List.mem_cons_of_mem _ this.2.2⟩
 
 theorem lastOp_isSome_of_length : ∀ (rest : Rest), 1 ≤ rest.length → ∃ o, rest.lastOp = some o
@@ -604,7 +604,7 @@ theorem nf_cpp : ∀ (n : Node), core n = true → wf n = true → cmpChainFree 
       have ihf := nf_cpp first hcf hwf hff
       have ihe := nf_cpp e hce hwe hfr.1
       simp only [cppExprL, Rest.firstTok, cppRestL]
-      apply nf_cppTail rest' lv ty _ op s hcr hwr' hfr.2 ?_ ?_ rfl hs hlv
+      apply nf_cppTail rest' lv _ _ op s hcr hwr' hfr.2 ?_ ?_ rfl hs hlv
       · intro hl
         cases rest' with
         | nil => rfl
@@ -628,7 +628,7 @@ theorem nf_cppTail : ∀ (rest : Rest) (lv : Nat) (pty : Ty) (acc : Expr) (o : B
     have heq : op.prec = o.prec := prec_eq_of_level hs ho (by omega) (by omega)
     have ihe := nf_cpp e hce hwe hf.1
     simp only [cppRestL]
-    apply nf_cppTail rest lv ty _ op s hcr hwr hf.2 (fun h => absurd h hne) ?_ rfl hs hlv
+    apply nf_cppTail rest lv _ _ op s hcr hwr hf.2 (fun h => absurd h hne) ?_ rfl hs hlv
     simp only [nf, slotOk, hp.2.1, Bool.and_eq_true, nf_wrapE]
     refine ⟨⟨⟨?_, right_ok hs (headOK e hce hwe) (by omega)⟩, hn⟩, ihe⟩
     rw [hh]; simp only [okL, (prec_facts ho).2.1]; simp; omega
@@ -695,7 +695,7 @@ theorem nf_pyRest : ∀ (rest : Rest) (lv : Nat) (pty : Ty) (acc : Expr), coreRe
       exact ⟨⟨⟨hl, ihe.2.1 _ (by omega)⟩, hn⟩, ihe.1⟩
     have hl' : okL pyOps lv (head (Expr.bin op.code acc (pyExprL e))) = true := by
       simp only [head, okL, hbin]; simp
-    have ih := nf_pyRest rest lv ty _ hcr hwr hacc hl'
+    have ih := nf_pyRest rest lv _ _ hcr hwr hacc hl'
     refine ⟨by simpa [pyRestL] using ih.1, fun _ => ?_⟩
     simp only [pyRestL]
     cases rest with
@@ -734,7 +734,7 @@ theorem heads_vocabularyRest : ∀ (rest : Rest) (pty : Ty) (acc : Expr), coreRe
     obtain ⟨s, hs⟩ := Option.isSome_iff_exists.mp hcpp
     have ihe := heads_vocabulary e hce
     simp only [pyRestL]
-    apply heads_vocabularyRest rest ty _ hcr
+    apply heads_vocabularyRest rest _ _ hcr
     intro h hh
     simp only [heads, List.mem_cons, List.mem_append] at hh
     rcases hh with rfl | hh | hh
